@@ -21,12 +21,13 @@ const (
 
 // Op status.
 const (
-	StOK      = 0
-	StCBPanic = 1 // injected callback panic propagated out of the call
-	StGoexit  = 2 // injected runtime.Goexit in a callback: task abandoned
-	StPanic   = 3 // the library panicked
-	StAborted = 4 // run unwound for exceeding the step budget
-	StDropped = 5 // never started (task abandoned / aborted earlier)
+	StOK        = 0
+	StCBPanic   = 1 // injected callback panic propagated out of the call
+	StGoexit    = 2 // injected runtime.Goexit in a callback: task abandoned
+	StPanic     = 3 // the library panicked
+	StAborted   = 4 // run unwound for exceeding the step budget
+	StDropped   = 5 // never started (task abandoned / aborted earlier)
+	StExpensive = 6 // reference pass only: returned, but beyond the soft step budget
 )
 
 type cbPanic struct{ k int }
